@@ -410,7 +410,18 @@ def inventory(facts, rep, rule, roots, floor=None, exclude=(), prop=None):
                 path = cg.path_to(roots, s.fn) or [s.fn]
                 rep.violation(rule, s.key, "%s `%s`: %s (call path %s)" % (s.kind, s.detail, ent["reason"], " -> ".join(fb.last2(p) for p in path)), s.loc)
             else:
-                rep.ok(rule, s.key, "%s: %s" % (ent["class"], ent["reason"]), s.loc)
+                from . import conditions
+                failed = []
+                prem = conditions.premises_for(ent["reason"])
+                for pm in prem:
+                    for why in conditions.evaluate(facts, pm):
+                        failed.append((pm, why))
+                if failed:
+                    pm, why = failed[0]
+                    rep.violation(rule, s.key + "|premise:" + pm, "the audited entry for `%s` (%s: %s) rests on %s, which no longer holds — %s" % (
+                        s.detail[:60], ent["class"], ent["reason"][:120], pm, why), s.loc)
+                else:
+                    rep.ok(rule, s.key, "%s: %s%s" % (ent["class"], ent["reason"], (" [premises re-checked: %s]" % ", ".join(prem)) if prem else ""), s.loc)
     if floor is not None:
         rep.floor(rule, "reachable panic sites", len(all_sites), floor)
     return all_sites
